@@ -493,7 +493,7 @@ def do_mode(kind, mode, x, tmp):
 
 
 # ---- multi-file layouts written by the harness itself (the package has no multi-file writer)
-def write_multifile(kind, x, tmp, rng_bits):
+def write_multifile(kind, x, tmp, rng_bits, d_given=None):
     """split the dictionary form of a system / script over several files with relative and absolute paths and
     external array files; returns the path of the top file"""
     import numpy as np
@@ -545,10 +545,10 @@ def write_multifile(kind, x, tmp, rng_bits):
         return sd
 
     if kind == "system":
-        top = split_system(m["rsy"].rdsystem_to_dict(x), "s_")
+        top = split_system(d_given if d_given is not None else m["rsy"].rdsystem_to_dict(x), "s_")
         dump(top, "system.json")
         return os.path.join(tmp, "system.json")
-    d = m["rsc"].rdscript_to_dict(x)
+    d = copy.deepcopy(d_given) if d_given is not None else m["rsc"].rdscript_to_dict(x)
     d["system"] = split_system(d["system"], "c_")
     if bit():
         dump(d["system"], "sys_of_script.json")
@@ -677,7 +677,11 @@ def check_object(ctx, kind, spec, modes, aliases, rng):
     for mode in modes:
         case = {"kind": kind, "mode": mode, "spec": spec}
         with Tmp() as tmp:
-            holds, detail = run_mode(kind, mode, x, ref, spec, tmp, aliases, rng, case)
+            try:
+                holds, detail = run_mode(kind, mode, x, ref, spec, tmp, aliases, rng, case)
+            except Exception as ex:  # noqa  (a writer / reader of the package raising outside the guarded calls)
+                holds, detail = fail("%s:%s:raises" % (mode.split("-")[0], kind),
+                                     "%s of a %s raises %s: %s" % (mode, kind, type(ex).__name__, str(ex)[:200]), impl=repr(ex))
         ctx.case((kind, mode, json.dumps(spec, sort_keys=True)), nontrivial=(nsys >= 2 or mode not in ("direct", "json")),
                  sample={"kind": kind, "mode": mode, "holds": holds, "unit_systems": nsys} if ctx.evaluations % 97 == 0 else None)
         ctx.count("mode_" + mode)
@@ -765,6 +769,40 @@ def run_mode(kind, mode, x, ref, spec, tmp, aliases, rng, case):
             return fail("multifile:%s:relative-top" % kind, "loading the same layout through a relative path differs / raises", impl=err,
                         extra={"bits": bits})
         return True, {}
+    if mode == "multifile-inherit":
+        # the same dictionary, with units left to inheritance at several levels, inline vs spread over files
+        to_d, from_d, _, load = conv(kind)
+        bits = case.get("bits")
+        if bits is None:
+            bits = [rng.randint(0, 1) for _ in range(24)]
+            case["bits"] = bits
+        d = jsonable_dict(to_d(x))
+        sd = d if kind == "system" else d["system"]
+        drop = bits[16:]
+        if drop[0]:
+            sd["network"].pop("units", None)
+        if drop[1]:
+            sd["space"].pop("units", None)
+        if drop[2]:
+            sd.pop("units", None)
+        for i, sp in enumerate(sd["network"]["species"]):
+            if drop[3 + (i % 2)]:
+                sp.pop("units", None)
+        for i, r in enumerate(sd["network"]["reactions"]):
+            if drop[5 + (i % 2)]:
+                r["units"] = "inherit"
+        inline, err = guarded(lambda: VIEW[kind](from_d(copy.deepcopy(d), base_path=tmp)))
+        if err is not None:
+            return True, {}      # e.g. a quantity text whose units no longer fit: rejected inline, nothing to compare
+        res, err = guarded(lambda: VIEW[kind](load(write_multifile(kind, x, tmp, bits[:16], d_given=d))))
+        if err is not None:
+            return fail("multifile:%s:raises" % kind, "a dictionary that loads inline raises %s when spread over files" % err, impl=err,
+                        extra={"bits": bits})
+        df = diff(inline, res)
+        if df:
+            return fail("multifile:%s:%s" % (kind, field_of(df[0])), "a %s dictionary with inherited units loaded from several files differs from the same dictionary inline at %s" % (kind, df[0]),
+                        impl=df[2], expected=df[1], extra={"bits": bits})
+        return True, {}
     if mode == "alias":
         to_d, from_d = conv(kind)[:2]
         d = jsonable_dict(to_d(x))
@@ -832,8 +870,8 @@ def run_mode(kind, mode, x, ref, spec, tmp, aliases, rng, case):
 MODES = {"network": ["direct", "json", "file-abs", "file-rel", "reserialise", "alias", "default"],
          "grid": ["direct", "json", "file-abs", "file-rel", "reserialise", "alias", "default"],
          "graph": ["direct", "json", "file-abs", "file-rel", "reserialise", "alias"],
-         "system": ["direct", "json", "file-abs", "file-rel", "reserialise", "alias", "default", "multifile"],
-         "script": ["direct", "json", "file-abs", "file-rel", "reserialise", "alias", "default", "multifile"],
+         "system": ["direct", "json", "file-abs", "file-rel", "reserialise", "alias", "default", "multifile", "multifile-inherit"],
+         "script": ["direct", "json", "file-abs", "file-rel", "reserialise", "alias", "default", "multifile", "multifile-inherit"],
          "trajectory": ["file-abs", "file-rel", "file-inline"]}
 
 
@@ -1028,6 +1066,9 @@ def replay(ctx, rec):
     x = BUILD[kind](spec)
     ref = VIEW[kind](x)
     with Tmp() as tmp:
-        holds, detail = run_mode(kind, mode, x, ref, spec, tmp, reader_aliases(), None, dict(case))
+        try:
+            holds, detail = run_mode(kind, mode, x, ref, spec, tmp, reader_aliases(), None, dict(case))
+        except Exception as ex:  # noqa
+            holds, detail = False, {"what": "%s of a %s raises %s: %s" % (mode, kind, type(ex).__name__, str(ex)[:200])}
     out.update(detail)
     return holds, out
